@@ -661,7 +661,7 @@ func init() {
 	Register(&Prop{
 		ID:  "C11",
 		Run: runC11,
-		Rule: "case = one of 19 aggregation functions (with percentile argument, top/bottom n, movingAverage window, as(), usePointTimes()) below a window emitted every 10s with period 10s (tumbling), 3s (gaps, empty batches) or 20s (overlapping: every point is aggregated twice) (or, for count/sum/mean/min/max, directly on the stream with runs of equal-time points and an occasional late point) (round 3: in a third of the batch cases the batches pass through a where/eval that forwards them message by message without announcing their size; in a quarter every group starts with a point that lacks the aggregated field; top/bottom/distinct also with usePointTimes, the batch they emit must still carry the window's end) over 1-3 groups, each with 1-4 windows of 0-8 values that are int or float per window (duplicates, negatives, magnitudes up to 1e15 / 1e300, field kind changing between windows), one concurrent writer per group; " +
+		Rule: "case = one of 19 aggregation functions (with percentile argument, top/bottom n, movingAverage window, as(), usePointTimes()) below a window emitted every 10s with period 10s (tumbling), 3s (gaps, empty batches) or 20s (overlapping: every point is aggregated twice) (or, for count/sum/mean/min/max, directly on the stream with runs of equal-time points and an occasional late point) (as() may also name the aggregated field itself; round 3: in a third of the batch cases the batches pass through a where/eval that forwards them message by message without announcing their size; in a quarter every group starts with a point that lacks the aggregated field; top/bottom/distinct also with usePointTimes, the batch they emit must still carry the window's end) over 1-3 groups, each with 1-4 windows of 0-8 values that are int or float per window (duplicates, negatives, magnitudes up to 1e15 / 1e300, field kind changing between windows), one concurrent writer per group; " +
 			"non-trivial = the definition gives at least one output; distinct = distinct (scenario, interleaving signature) pairs",
 		Real:        []string{"InfluxQLNode (BeginBatch/BatchPoint/EndBatch, stream mode, streaming transformations), generated reduce contexts (influxql.gen.go) on the influxdb query reducers", "WindowNode, FromNode/groupBy, LogNode, TaskMaster, httpd write endpoint"},
 		Stub:        []string{"log sink below the aggregation node"},
